@@ -328,6 +328,36 @@ def check_concrete_inputs(out, facts):
         check_bytes_cursor(out, facts)
 
 
+def _only_converted(v, uid):
+    """v is Ok(..) of the decoded value #uid, passed through conversions only (`Bytes::from`, `.into()`, `.map(From::from)`)"""
+    v = strip(v)
+    s = sym.vstr(v)
+    if not s.startswith('Ok('):
+        return False
+    x = v
+    for _ in range(8):
+        x = strip(x)
+        if not isinstance(x, tuple) or not x:
+            return False
+        if x[0] == 'decoded':
+            return x[2] == uid
+        if x[0] in ('res', 'conv', 'tried', 'unwrapped'):
+            x = x[1]
+        elif x[0] == 'mapped' and isinstance(strip(x[1]), tuple) and strip(x[1])[0] == 'fnitem' and strip(x[1])[1].split('::')[-1] in ('from', 'into'):
+            x = x[2]
+        elif x[0] == 'call' and x[1] in ('from', 'into', 'map', 'Ok') and x[3]:
+            args = [strip(a) for a in x[3]]
+            nxt = [a for a in args if isinstance(a, tuple) and a and a[0] in ('decoded', 'res', 'conv', 'tried', 'call')]
+            if not nxt:
+                return False
+            x = nxt[-1] if x[1] != 'map' else nxt[0]
+        elif x[0] == 'adt' and x[2] == 'Ok' and x[3]:
+            x = x[3][0][1]
+        else:
+            return False
+    return False
+
+
 def check_bytes_cursor(out, facts):
     cfg = facts.cfg
     f = facts.impl_method('Input', 'codec::BytesCursor', 'remaining_len')
@@ -357,7 +387,12 @@ def check_bytes_cursor(out, facts):
             ok = False
             why.append('position not advanced by exactly into.len(): %s' % [sym.tstr(s) for s in sets])
         cp = [e for e in p if e[0] == 'MUTCALL' and e[1] == 'copy_from_slice']
-        if len(cp) != 1 or 'Range::Range{0: self.position, 1: (self.position Add len(into))}' not in sym.vstr(cp[0][3][1]):
+        okr = False
+        if len(cp) == 1:
+            vw = slice_view(cp[0][3][1])
+            okr = bool(vw) and 'self.bytes' in sym.vstr(vw[0]) and vw[1] is not None and sym.vstr(vw[1]) == 'self.position' and vw[2] is not None and \
+                sym.vstr(vw[2]) in ('(self.position Add len(into))', '(len(into) Add self.position)')
+        if not okr:
             ok = False
             why.append('copied range is not [position, position + into.len())')
     # acceptance, decided by evaluating the branch conditions at boundary values (any spelling of the guard is fine): a
@@ -408,7 +443,8 @@ def check_bytes_cursor(out, facts):
     d = facts.trait_default('Input', 'scale_internal_decode_bytes')
     if d:
         t, v, ev = wire.infer_decoder_fn(facts, d)
-        okd = sym.tstr(t).startswith('dec<alloc::vec::Vec<u8>>') and len(events(t)) == 1 and sym.vstr(v).startswith('Ok(map(from, decoded#')
+        evs_d = [e for e in events(t) if e[0] not in ('?', 'CFG')]
+        okd = len(evs_d) == 1 and evs_d[0][0] == 'dec' and evs_d[0][1] == 'alloc::vec::Vec<u8>' and _only_converted(v, evs_d[0][2])
         out.ob('R08.4', 'Input::scale_internal_decode_bytes default [%s]' % cfg, okd,
                'default is not Vec::<u8>::decode(self).map(Bytes::from): %s -> %s' % (sym.tstr(t), sym.vstr(v)), d['loc'])
     # decode_from_bytes starts the cursor at 0 and returns T::decode unchanged
